@@ -4,6 +4,7 @@ import (
 	"crypto/sha256"
 	"encoding/json"
 	"fmt"
+	"github.com/xjslang/xjs/sourcemap"
 	"math/rand/v2"
 	"os"
 	"os/exec"
@@ -859,6 +860,104 @@ func runC14Sequential(t *fw.T) {
 					map[string]any{"expected_config": wantCfg[i].String(), "expected_code": want, "code": got})
 				return
 			}
+		}
+	}
+	// a caller completes the source maps it was given (File, Sources, SourcesContent, as the README shows): what it
+	// writes into one result shows in no other result, before or after - also for programs without any mapping (empty
+	// source, comments only)
+	{
+		bad := false
+		t.Guard("caller fills in source maps", nil, func() {
+			srcs := []string{"", "// only a comment\n", "\n\n", "let a = 1"}
+			var maps []*sourcemap.SourceMap
+			for round := 0; round < 2 && !bad; round++ {
+				for i, src := range srcs {
+					prog, errs := parseOnly(newBuilder(Mode{}), src)
+					if len(errs) > 0 {
+						continue
+					}
+					res := Cfg{Map: true, Pretty: (i+round)%2 == 0, Spaces: 2}.Compile(prog)
+					t.Count("source_maps_completed_by_the_caller", 1)
+					if res.SourceMap == nil {
+						continue
+					}
+					if res.SourceMap.File != "" || len(res.SourceMap.Sources) != 0 || len(res.SourceMap.SourcesContent) != 0 || res.SourceMap.SourceRoot != "" {
+						t.Violate("handed-out-result-rewritten", "fresh source map carries another caller's fields", fmt.Sprintf("a freshly returned source map (source %q) already has File=%q Sources=%v: fields that a caller wrote into an earlier result", src, res.SourceMap.File, res.SourceMap.Sources), nil)
+						bad = true
+						break
+					}
+					for _, m := range maps {
+						if m == res.SourceMap {
+							t.Violate("handed-out-result-rewritten", "two compilations return the same source map object", fmt.Sprintf("two compilations returned the same *SourceMap (source %q)", src), nil)
+							bad = true
+						}
+					}
+					res.SourceMap.File = fmt.Sprintf("out%d.js", i)
+					res.SourceMap.Sources = []string{fmt.Sprintf("in%d.xjs", i)}
+					res.SourceMap.SourcesContent = []string{src}
+					maps = append(maps, res.SourceMap)
+				}
+			}
+		})
+		if bad {
+			return
+		}
+	}
+	// a plugin builds and runs a parser from the SAME builder inside a token interceptor while the outer parser is being
+	// built (its first tokens are read during Build): one builder builds independent parsers, also re-entrantly. The
+	// nested build runs on its own goroutine; meanwhile this goroutine completes plain parses. If it completes 20 000 of
+	// them and the nested build still has not returned, the build is blocked (logical clock: work done elsewhere).
+	{
+		done := make(chan string, 1)
+		go func() {
+			defer func() {
+				if rec := recover(); rec != nil {
+					done <- fmt.Sprint("panic: ", rec)
+				}
+			}()
+			lb := lexer.NewBuilder()
+			pb := parser.NewBuilder(lb)
+			depth := 0
+			inner := ""
+			lb.UseTokenInterceptor(func(l *lexer.Lexer, next func() token.Token) token.Token {
+				if depth == 0 && l.CurrentChar == '`' {
+					depth++
+					p := pb.Build("1 + x")
+					prog, _ := p.ParseProgram()
+					inner = CfgCompact.Compile(prog).Code
+					depth--
+				}
+				return next()
+			})
+			p := pb.Build("`t` + a\nb")
+			prog, err := p.ParseProgram()
+			if err != nil {
+				done <- "error: " + err.Error()
+				return
+			}
+			done <- inner + "|" + CfgCompact.Compile(prog).Code
+		}()
+		var got string
+		finished := false
+		for n := 0; n < 20000 && !finished; n++ {
+			select {
+			case got = <-done:
+				finished = true
+			default:
+				parse("let canary = 1 + 2", Mode{})
+				if n%64 == 0 {
+					runtime.Gosched()
+				}
+			}
+		}
+		t.Count("nested_builds_from_a_token_interceptor", 1)
+		if !finished {
+			t.Violate("nested-build-blocked", "token interceptor during Build", "a parser built from the same builder inside a token interceptor, while the outer Build reads its first tokens, did not return although 20000 plain parses completed on another goroutine meanwhile", nil)
+			return
+		}
+		if want := "1+x;|`t`+a;b;"; got != want {
+			t.Violate("nested-build-result", "token interceptor during Build", fmt.Sprintf("nested build inside a token interceptor: got %q, want %q", got, want), nil)
+			return
 		}
 	}
 	// results that were handed out stay what they were: later compilations (same compiler or others) do not rewrite them
